@@ -75,6 +75,13 @@ class _Objs:
         self.objs[k] = v
         return Ref(k)
 
+    deep = frozenset()      # the entry classes written as indirect references (variant 2; see entry_classes)
+
+    def ind(self, v, cls):
+        """v as an indirect object when its entry class is switched on (ISO 32000-1 7.3.10: any object may be an
+        indirect object; the expectation of the specification does not change)"""
+        return self.new(v) if cls in self.deep else v
+
     def reserve(self):
         k = self.nxt
         self.nxt += 1
@@ -84,54 +91,80 @@ class _Objs:
         cat = {"Type": Name("Catalog"), "Pages": Ref(2)}
         cat.update(catalog)
         self.objs[1] = cat
-        if variant == 0:
+        if variant in (0, 2):
             rev = Revision(dict(sorted(self.objs.items())), root=Ref(1))
         else:
             rev = Revision(dict(sorted(self.objs.items())), form="stream", objstm=sorted(self.objs), root=Ref(1))
         return build([rev])[0]
 
 
-def label_dict(style, prefix, st, variant):
+ENTRY_CLASSES = {
+    "labels": ("S", "P", "St", "key", "arr", "lim"),        # /S /P /St values, /Nums keys, /Nums /Kids /Limits arrays, /Limits elements
+    "numtree": ("S", "P", "key", "val", "arr", "lim"),      # + the label dictionaries
+    "dests": ("key", "val", "arr", "lim", "D"),             # /Names keys and values, arrays, /Limits elements, /D of a dictionary value
+    "outline": ("Title", "Count", "A", "AS", "AD"),         # /Title, /Count, the action dictionary, its /S and /D
+}
+
+
+def entry_classes(kind, variant, mask):
+    """variant 2 writes a subset of the entry classes as indirect references: bit n of mask switches class n on;
+    mask -1 = all of them"""
+    if variant != 2:
+        return frozenset()
+    cl = ENTRY_CLASSES[kind]
+    return frozenset(c for n, c in enumerate(cl) if mask < 0 or (mask >> n) & 1)
+
+
+def label_dict(style, prefix, st, variant, o=None):
+    o = o or _Objs(0)
     d = {}
     if style != "none":
-        d["S"] = Name(style)
+        d["S"] = o.ind(Name(style), "S")
     if prefix != "":
-        d["P"] = encode_text(prefix, utf16=(variant == 1))
-    if st != 1 or variant == 1:
-        d["St"] = st
+        d["P"] = o.ind(encode_text(prefix, utf16=(variant == 1)), "P")
+    if st != 1 or variant >= 1:
+        d["St"] = o.ind(st, "St")
     return d
 
 
-def labels_doc(vals, npages, variant):
+def labels_doc(vals, npages, variant, mask=-1):
     """vals: [{start, style, prefix, st}] sorted.  variant 0: one root with /Nums; variant 1: the pairs spread over
-    indirect leaf nodes (with /Limits) below a root with /Kids, the label dictionaries indirect."""
+    indirect leaf nodes (with /Limits) below a root with /Kids, the label dictionaries indirect; variant 2: as 1 and
+    every entry (/S /P /St, the keys in /Nums, the /Nums, /Kids and /Limits arrays and their elements) indirect."""
     o = _Objs(npages)
+    o.deep = entry_classes("labels", variant, mask)
     pairs = []
     for r in vals:
-        d = label_dict(r["style"], r["prefix"], r["st"], variant)
-        pairs.append((r["start"], o.new(d) if variant == 1 else d))
+        d = label_dict(r["style"], r["prefix"], r["st"], variant, o)
+        pairs.append((r["start"], o.new(d) if variant >= 1 else d))
+
+    def nums(ps):
+        arr = [x for (k, v) in ps for x in (o.ind(k, "key"), v)]
+        return o.ind(arr, "arr")
     if variant == 0 or len(pairs) < 2:
-        tree = {"Nums": [x for p in pairs for x in p]}
+        tree = {"Nums": nums(pairs)}
     else:
         kids = []
         for chunk in (pairs[:1], pairs[1:]):
-            kids.append(o.new({"Limits": [chunk[0][0], chunk[-1][0]], "Nums": [x for p in chunk for x in p]}))
-        tree = {"Kids": kids}
-    return o.finish({"PageLabels": tree if variant == 0 else o.new(tree)}, variant), {"pages": o.page_ids}
+            lim = o.ind([o.ind(chunk[0][0], "lim"), o.ind(chunk[-1][0], "lim")], "arr")
+            kids.append(o.new({"Limits": lim, "Nums": nums(chunk)}))
+        tree = {"Kids": o.ind(kids, "arr")}
+    return o.finish({"PageLabels": tree if variant == 0 else o.new(tree)}, variant), {"pages": o.page_ids, "deep": o.deep}
 
 
 def _num_node(o, t, value_of, variant, root=False):
     d = {}
     if t["leaf"]:
-        d["Nums"] = [x for k in t["keys"] for x in (k, value_of(k))]
+        d["Nums"] = [x for k in t["keys"] for x in (o.ind(k, "key"), o.ind(value_of(k), "val"))]
         if variant == 1:
             d["Nums"] = o.new(d["Nums"])
+        d["Nums"] = o.ind(d["Nums"], "arr") if variant == 2 else d["Nums"]
     else:
         kids = [_num_node(o, c, value_of, variant) for c in t["kids"]]
-        d["Kids"] = [k if (variant == 1 and i % 2 == 1) else o.new(k) for i, k in enumerate(kids)]
+        d["Kids"] = o.ind([k if (variant == 1 and i % 2 == 1) else o.new(k) for i, k in enumerate(kids)], "arr")
     if not root:
         ks = keys_of(t)
-        d["Limits"] = [ks[0], ks[-1]]
+        d["Limits"] = o.ind([o.ind(ks[0], "lim"), o.ind(ks[-1], "lim")], "arr")
     return d
 
 
@@ -144,12 +177,13 @@ def keys_of(t):
     return out
 
 
-def numtree_doc(tree, npages, variant):
+def numtree_doc(tree, npages, variant, mask=-1):
     """a /PageLabels number tree of the given shape; key k labels pages from index k with prefix "k<k>-" in
     decimal (the tree's keys are used as page indices as they are; NKeys <= npages)"""
     o = _Objs(npages)
-    root = _num_node(o, tree, lambda k: {"S": Name("D"), "P": b"k%d-" % k}, variant, root=True)
-    return o.finish({"PageLabels": o.new(root) if variant == 1 else root}, variant), {"pages": o.page_ids}
+    o.deep = entry_classes("numtree", variant, mask)
+    root = _num_node(o, tree, lambda k: {"S": o.ind(Name("D"), "S"), "P": o.ind(b"k%d-" % k, "P")}, variant, root=True)
+    return o.finish({"PageLabels": o.new(root) if variant >= 1 else root}, variant), {"pages": o.page_ids, "deep": o.deep}
 
 
 KEY_BYTES = {1: b"A", 2: b"Aa", 3: b"B", 4: b"Ba", 5: b"C", 6: b"a", 7: b"aa", 8: b"b"}      # ascending in byte order
@@ -158,49 +192,52 @@ KEY_BYTES = {1: b"A", 2: b"Aa", 3: b"B", 4: b"Ba", 5: b"C", 6: b"a", 7: b"aa", 8
 def _name_node(o, t, value_of, variant, root=False):
     d = {}
     if t["leaf"]:
-        d["Names"] = [x for k in t["keys"] for x in (KEY_BYTES[k], value_of(k))]
+        d["Names"] = [x for k in t["keys"] for x in (o.ind(KEY_BYTES[k], "key"), o.ind(value_of(k), "val"))]
         if variant == 1:
             d["Names"] = o.new(d["Names"])
+        d["Names"] = o.ind(d["Names"], "arr") if variant == 2 else d["Names"]
     else:
         kids = [_name_node(o, c, value_of, variant) for c in t["kids"]]
-        d["Kids"] = [k if (variant == 1 and i % 2 == 1) else o.new(k) for i, k in enumerate(kids)]
+        d["Kids"] = o.ind([k if (variant == 1 and i % 2 == 1) else o.new(k) for i, k in enumerate(kids)], "arr")
     if not root:
         ks = keys_of(t)
-        d["Limits"] = [KEY_BYTES[ks[0]], KEY_BYTES[ks[-1]]]
+        d["Limits"] = o.ind([o.ind(KEY_BYTES[ks[0]], "lim"), o.ind(KEY_BYTES[ks[-1]], "lim")], "arr")
     return d
 
 
-def dests_doc(tree, hastree, dictkeys, hasdict, variant, nkeys=8):
+def dests_doc(tree, hastree, dictkeys, hasdict, variant, nkeys=8, mask=-1):
     """named destinations: the name tree /Names /Dests (string keys KEY_BYTES[k]) and the PDF 1.1 /Dests dictionary
     (name keys spelled like the strings).  The destination of key k found in the tree shows page k, the one
     found in the dictionary page nkeys + k."""
     o = _Objs(2 * nkeys + 1)
+    o.deep = entry_classes("dests", variant, mask)
 
     def tree_value(k):
         dest = [Ref(o.page_ids[k]), Name("Fit")]
-        return {"D": dest} if (variant == 1 and k % 2 == 0) else dest
+        return {"D": o.ind(dest, "D")} if (variant >= 1 and k % 2 == 0) else dest
 
     cat = {}
     if hastree:
         root = _name_node(o, tree, tree_value, variant, root=True)
         names = {"Dests": o.new(root)}
-        cat["Names"] = o.new(names) if variant == 1 else names
+        cat["Names"] = o.new(names) if variant >= 1 else names
     if hasdict:
-        d = {KEY_BYTES[k].decode(): [Ref(o.page_ids[nkeys + k]), Name("XYZ"), 0, 0, 0] for k in sorted(dictkeys)}
-        cat["Dests"] = o.new(d) if variant == 1 else d
-    return o.finish(cat, variant), {"pages": o.page_ids, "nkeys": nkeys}
+        d = {KEY_BYTES[k].decode(): o.ind([Ref(o.page_ids[nkeys + k]), Name("XYZ"), 0, 0, 0], "val") for k in sorted(dictkeys)}
+        cat["Dests"] = o.new(d) if variant >= 1 else d
+    return o.finish(cat, variant), {"pages": o.page_ids, "nkeys": nkeys, "deep": o.deep}
 
 
 TITLE_EXTRA = ["", "•", "Ł", "€"]      # characters PDFDocEncoding has outside Latin-1
 
 
 def outline_title(i, variant):
-    return "T%d%s" % (i, TITLE_EXTRA[i % 4] if variant == 1 else "")
+    return "T%d%s" % (i, TITLE_EXTRA[i % 4] if variant >= 1 else "")
 
 
-def outline_doc(n, lev, tgt, variant):
+def outline_doc(n, lev, tgt, variant, mask=-1):
     """an outline hierarchy with the preorder level sequence lev (1-based list) and targets tgt"""
     o = _Objs(max(1, n))
+    o.deep = entry_classes("outline", variant, mask)
     root_id = o.reserve()
     ids = [None] + [o.reserve() for _ in range(n)]
     levs = [0] + list(lev)
@@ -238,12 +275,12 @@ def outline_doc(n, lev, tgt, variant):
     for i in range(0, n + 1):
         ch = children(i)
         d = {"Type": Name("Outlines")} if i == 0 else {
-            "Title": encode_text(outline_title(i, variant), utf16=(variant == 1 and i % 2 == 0)),
+            "Title": o.ind(encode_text(outline_title(i, variant), utf16=(variant >= 1 and i % 2 == 0)), "Title"),
             "Parent": Ref(ids[parent(i)] if parent(i) else root_id)}
         if ch:
             d["First"] = Ref(ids[ch[0]])
             d["Last"] = Ref(ids[ch[-1]])
-            d["Count"] = len(ch)
+            d["Count"] = o.ind(len(ch), "Count")
         if i:
             if nxt(i):
                 d["Next"] = Ref(ids[nxt(i)])
@@ -253,9 +290,10 @@ def outline_doc(n, lev, tgt, variant):
             if tgt[i - 1] == "Dest":
                 d["Dest"] = dest if variant == 0 else o.new(dest)
             elif tgt[i - 1] == "A":
-                d["A"] = {"S": Name("GoTo"), "D": dest}
+                act = {"S": o.ind(Name("GoTo"), "AS"), "D": o.ind(dest, "AD")}
+                d["A"] = o.ind(act, "A")
         o.objs[root_id if i == 0 else ids[i]] = d
-    return o.finish({"Outlines": Ref(root_id)}, variant), {"ids": ids}
+    return o.finish({"Outlines": Ref(root_id)}, variant), {"ids": ids, "deep": o.deep}
 
 
 # ------------------------------------------------------------------------------------------------ dumpoutline cases
